@@ -2,6 +2,7 @@ package font
 
 import (
 	"fmt"
+	"strconv"
 
 	"github.com/tsawler/tabula/core"
 )
@@ -167,6 +168,19 @@ func (t1 *Type1Font) parseEncoding(fontDict core.Dict, resolver func(core.Indire
 // applyEncodingDifferences applies the Differences array to customize encoding
 // Format: [code name1 name2 ... code name1 name2 ...]
 func (t1 *Type1Font) applyEncodingDifferences(diffs core.Array) error {
+	differences, err := differencesFromArray(diffs)
+	if err != nil {
+		return err
+	}
+	t1.differences = differences
+	return nil
+}
+
+// differencesFromArray converts a Differences array into code -> Unicode
+// overrides. A glyph name without a known Unicode value leaves the base
+// encoding's mapping for its code in place.
+func differencesFromArray(diffs core.Array) (map[byte]rune, error) {
+	differences := make(map[byte]rune)
 	code := 0
 	for _, item := range diffs {
 		switch v := item.(type) {
@@ -175,15 +189,29 @@ func (t1 *Type1Font) applyEncodingDifferences(diffs core.Array) error {
 			code = int(v)
 		case core.Name:
 			// This is a glyph name mapped to current code
-			// We would need a glyph name to Unicode mapping table here
-			// For now, just increment the code
-			// TODO: Implement proper glyph name to Unicode mapping
+			if r, ok := glyphNameToRune(string(v)); ok && code >= 0 && code <= 255 {
+				differences[byte(code)] = r
+			}
 			code++
 		default:
-			return fmt.Errorf("invalid differences array item: %T", item)
+			return nil, fmt.Errorf("invalid differences array item: %T", item)
 		}
 	}
-	return nil
+	return differences, nil
+}
+
+// glyphNameToRune returns the Unicode value of a glyph name: a name from the
+// glyph list, or the uniXXXX form.
+func glyphNameToRune(name string) (rune, bool) {
+	if r, ok := glyphNameToUnicode[name]; ok {
+		return r, true
+	}
+	if len(name) == 7 && name[:3] == "uni" {
+		if v, err := strconv.ParseUint(name[3:], 16, 32); err == nil {
+			return rune(v), true
+		}
+	}
+	return 0, false
 }
 
 // parseWidths extracts character width information from the font dictionary
